@@ -19,6 +19,10 @@ pub struct Violation {
 
 /// Lower-bound counter of distinct fingerprints: one bit per hash value in a
 /// fixed table (collisions can only under-count, never over-count).
+pub static GLOBAL_EVALS: AtomicU64 = AtomicU64::new(0);
+/// the run's fingerprint set, for the handlers that end a run early
+pub static GLOBAL_DISTINCT: std::sync::OnceLock<&'static Distinct> = std::sync::OnceLock::new();
+
 pub struct Distinct {
     bits: Vec<AtomicU64>,
     mask: u64,
@@ -131,6 +135,11 @@ impl<'d> Ctx<'d> {
     #[inline]
     pub fn eval(&mut self) {
         self.evals += 1;
+        // a process-wide running total (in steps of 64), so that a run that is ended by a hang or an abort can still
+        // say how much it had observed by then
+        if self.evals & 63 == 0 {
+            GLOBAL_EVALS.fetch_add(64, Ordering::Relaxed);
+        }
     }
     /// record a non-trivial case by fingerprint
     #[inline]
